@@ -31,10 +31,10 @@ type valWorld struct {
 	ops       []sdk.ValAddress   // operator addresses
 	keys      []*ed25519.PrivKey // consensus keys
 	// model, from observed successes
-	bonded     map[string]int  // operator index (as string of ValAddress) -> key index, power 1
-	pending    map[string]int  // validators stored with power 1 but not yet in the bonded set (added this block)
-	zeroed     map[string]bool // removed this block (power 0), to be purged at EndBlock
-	keyOf      map[string]int  // every stored validator's key index
+	bonded     map[string]int   // operator index (as string of ValAddress) -> key index, power 1
+	pending    map[string]int   // validators stored with power 1 but not yet in the bonded set (added this block)
+	zeroed     map[string]bool  // removed this block (power 0), to be purged at EndBlock
+	keyOf      map[string]int   // every stored validator's key index
 	pow        map[string]int64 // bonded power per operator (1 unless genesis said otherwise)
 	maxVals    uint32
 	histN      uint32
